@@ -67,6 +67,11 @@ pub fn gen(r: &mut Rng, thorough: bool) -> Vec<(String, String)> {
             v.push(("bf_point".to_string(), args));
         }
     }
+    // families added later are generated last so that the earlier case streams stay unchanged
+    v.extend(comp::gen_touch(r, thorough));
+    v.extend(comp::gen_nlcast(r, thorough));
+    v.extend(comp2::gen_touch(r, thorough));
+    v.extend(comp2::gen_nlcast(r, thorough));
     v
 }
 
@@ -80,7 +85,7 @@ pub mod comp {
     use super::super::c03::{self, Sh};
     use crate::p3::bounding_volume::Aabb;
     use crate::p3::na::{self, DMatrix};
-    use crate::p3::query::{self, ClosestPoints, DefaultQueryDispatcher, PointQuery, QueryDispatcher, Ray, RayCast, ShapeCastOptions};
+    use crate::p3::query::{self, ClosestPoints, DefaultQueryDispatcher, NonlinearRigidMotion, PointQuery, QueryDispatcher, Ray, RayCast, ShapeCastOptions};
     use crate::p3::shape::{Compound, HeightField, Polyline, Shape, SharedShape, TriMesh};
     use crate::p3::utils::IsometryOpt;
     use d3::{Isometry, Point, Real, Vector};
@@ -138,12 +143,42 @@ pub mod comp {
     }
     fn fcps(k: (u8, f64)) -> String { match k.0 { 0 => "I".into(), 1 => format!("v {}", ff(k.1)), _ => "D".into() } }
 
+    /// every float of the case is a small dyadic rational (multiple of 2^-5, |x| <= 1024): with such inputs (and no
+    /// heightfield, whose vertex abscissae are divided by the cell count) every bounding-box computation of the composite
+    /// paths is exact in f64, so a touching configuration is a touching configuration for the real code as well
+    pub fn lattice_args(a: &Args) -> bool {
+        !a.t.iter().any(|t| *t == "heightfield") && a.t.iter().all(|t| {
+            if t.len() != 16 { return true; }
+            match u64::from_str_radix(t, 16) { Ok(bits) => { let x = f64::from_bits(bits); x.is_finite() && x.abs() <= 1024.0 && (x * 32.0).fract() == 0.0 }, Err(_) => true }
+        })
+    }
     pub fn exec(func: &str, a: &mut Args) -> String {
+        let exact = lattice_args(a);
+        let out = exec0(func, a);
+        if exact { format!("{} ; exact", out) } else { out }
+    }
+    fn exec0(func: &str, a: &mut Args) -> String {
         let c = co(a); let pc = d3::iso(a);
         let gc = dynco(&c);
         let ps = parts(&c, &*gc);
         let d = DefaultQueryDispatcher;
         match func {
+            // ---- nonlinear cast: composite, start pose, other shape, start pose, order flag, then for the composite and for
+            // the other shape `local_center linvel angvel`, then start_time end_time stop_at_penetration
+            "composite_nlcast" => {
+                let x = c03::sh(a); let px = d3::iso(a); let first = a.b();
+                let gx = c03::dynsh(&x);
+                let mc = NonlinearRigidMotion::new(pc, d3::p(a), d3::v(a), d3::v(a));
+                let mx = NonlinearRigidMotion::new(px, d3::p(a), d3::v(a), d3::v(a));
+                let t0 = a.f(); let t1 = a.f(); let stop = a.b();
+                let got = if first { query::cast_shapes_nonlinear(&mc, &*gc, &mx, &*gx, t0, t1, stop) } else { query::cast_shapes_nonlinear(&mx, &*gx, &mc, &*gc, t0, t1, stop) };
+                let got = match got { Ok(v) => v, Err(_) => return "unsupported ; unsupported".into() };
+                // per part, as the visitor does it: the part's motion is the composite's motion with the part pose prepended
+                let bf = minf(ps.iter().filter_map(|(pp, s)| {
+                    let mp = match pp { Some(pp) => mc.prepend(*pp), None => mc };
+                    d.cast_shapes_nonlinear(&mp, &**s, &mx, &*gx, t0, t1, stop).ok().flatten().map(|h| h.time_of_impact) }));
+                format!("{} ; {} ; lim {}", fo(got.map(|h| h.time_of_impact)), fo(bf), ff(t1))
+            }
             // ---- pairwise queries: composite, pose, other shape, pose, order flag (1 = composite first)
             "composite_distance" | "composite_it" | "composite_cp" | "composite_contact" | "composite_cast" => {
                 let x = c03::sh(a); let px = d3::iso(a); let first = a.b();
@@ -216,7 +251,9 @@ pub mod comp {
                 let got_n = gc.cast_ray_and_get_normal(&pc, &ray, max_toi, solid).map(|i| i.time_of_impact);
                 let ls = ray.inverse_transform_by(&pc);
                 let bf = minf(ps.iter().filter_map(|(pp, s)| match pp { Some(pp) => s.cast_ray(pp, &ls, max_toi, solid), None => s.cast_local_ray(&ls, max_toi, solid) }));
-                format!("{} {} ; {} {} ; lim {}", fo(got), fo(got_n), fo(bf), fo(bf), ff(max_toi))
+                // like with like: the normal-returning composite visitor calls the parts' `cast_ray_and_get_normal`
+                let bf_n = minf(ps.iter().filter_map(|(pp, s)| match pp { Some(pp) => s.cast_ray_and_get_normal(pp, &ls, max_toi, solid), None => s.cast_local_ray_and_get_normal(&ls, max_toi, solid) }.map(|i| i.time_of_impact)));
+                format!("{} {} ; {} {} ; lim {}", fo(got), fo(got_n), fo(bf), fo(bf_n), ff(max_toi))
             }
             "composite_point" => {
                 let pt = d3::p(a); let solid = a.b();
@@ -280,11 +317,22 @@ pub mod comp {
         }
     }
     /// rows / grids of parts with rotated part poses, duplicated and degenerate parts
-    fn gen_compound(r: &mut Rng, lat: bool) -> Co {
+    /// rotations whose quaternion has dyadic coefficients (identity, half turns about the axes, thirds of a turn about the
+    /// cube diagonals): they map lattice points to lattice points without rounding
+    pub fn qexact(r: &mut Rng) -> [f64; 4] {
+        match r.below(3) {
+            0 => [0.0, 0.0, 0.0, 1.0],
+            1 => { let mut q = [0.0; 4]; q[r.below(4) as usize] = if r.bool() { 1.0 } else { -1.0 }; q }
+            _ => { let mut q = [0.5; 4]; for x in q.iter_mut() { if r.bool() { *x = -*x; } } q }
+        }
+    }
+    fn uq(q: [f64; 4]) -> na::UnitQuaternion<Real> { na::Unit::new_unchecked(na::Quaternion::new(q[3], q[0], q[1], q[2])) }
+    fn gen_compound(r: &mut Rng, lat: bool) -> Co { gen_compound_x(r, lat, false) }
+    fn gen_compound_x(r: &mut Rng, lat: bool, exact: bool) -> Co {
         let n = 5 + r.below(36) as usize;
         let kind = r.below(6);
         let layout = r.below(4);
-        let pitch = *r.pick(&[1.5, 2.0, 3.0]);
+        let pitch = if exact { *r.pick(&[1.0, 1.5, 2.0]) } else { *r.pick(&[1.5, 2.0, 3.0]) };
         let mut ps = Vec::new();
         for k in 0..n {
             let t = match layout {
@@ -293,7 +341,7 @@ pub mod comp {
                 2 => Vector::new(pitch * (k % 3) as f64, pitch * ((k / 3) % 3) as f64, pitch * (k / 9) as f64),
                 _ => d3::gen_v(r, lat, 10.0),
             };
-            let ql = lat || r.bool(); let q = d3::gen_quat(r, ql);
+            let ql = lat || r.bool(); let q = if exact { qexact(r) } else { d3::gen_quat(r, ql) };
             let m = Isometry::from_parts(na::Translation3::from(t), na::Unit::new_unchecked(na::Quaternion::new(q[3], q[0], q[1], q[2])));
             let kk = if kind == 5 { r.below(5) } else { kind }; let s = unit_parts(r, lat, kk);
             ps.push((s, m));
@@ -371,6 +419,141 @@ pub mod comp {
         Isometry::from_parts(na::Translation3::from(anchor + off + far), na::Unit::new_unchecked(na::Quaternion::new(q[3], q[0], q[1], q[2])))
     }
 
+    // ---------------------------------------------------------------- exact touching configurations (lattice)
+    fn part_boxes(c: &Co) -> Vec<Aabb> {
+        let g = dynco(c);
+        parts(c, &*g).iter().map(|(pp, s)| match pp { Some(pp) => s.compute_aabb(pp), None => s.compute_local_aabb() }).collect()
+    }
+    fn gen_touch_composite(r: &mut Rng) -> Co {
+        match r.below(5) { 0 | 1 | 2 => gen_compound_x(r, true, true), 3 => gen_grid_mesh(r, true), _ => gen_polyline(r, true) }
+    }
+    fn gen_touch_other(r: &mut Rng) -> Sh {
+        match r.below(6) {
+            0 => Sh::Ball(*r.pick(&[0.25, 0.5, 1.0])),
+            1 => Sh::Cuboid(Vector::new(*r.pick(&[0.5, 1.0, 3.0]), *r.pick(&[0.25, 0.5]), *r.pick(&[0.5, 2.0]))),
+            2 => { let mut p = Point::origin(); p[r.below(3) as usize] = *r.pick(&[0.5, 2.0]); Sh::Capsule(Point::from(-p.coords), p, *r.pick(&[0.25, 0.5])) }
+            3 => c03::gen_shape(r, true, &[4]),
+            4 => c03::gen_shape(r, true, &[5]),
+            _ => Sh::Capsule(Point::new(0.5, 0.0, 0.25), Point::new(1.5, 1.0, 0.25), 0.25),     // off-centre
+        }
+    }
+    /// pose of `x` (in the composite's frame) such that its box, loosened by `gap`, touches the box `pb` of a part exactly:
+    /// on the `plus`/minus side of axis `k`, overlapping it along the other axes
+    fn touch_pose(r: &mut Rng, pb: &Aabb, x: &Sh, gap: f64, k: usize, plus: bool) -> Isometry<Real> {
+        let rot = uq(qexact(r));
+        let xb = c03::dynsh(x).compute_aabb(&Isometry::from_parts(na::Translation3::identity(), rot));
+        let mut t = Vector::zeros();
+        for j in 0..3 {
+            t[j] = if j == k { if plus { pb.maxs[j] + gap - xb.mins[j] } else { pb.mins[j] - gap - xb.maxs[j] } }
+                   else { (pb.mins[j] + pb.maxs[j]) * 0.5 - (xb.mins[j] + xb.maxs[j]) * 0.5 + *r.pick(&[-0.5, 0.0, 0.0, 0.25]) };
+        }
+        Isometry::from_parts(na::Translation3::from(t), rot)
+    }
+    fn exact_world(r: &mut Rng) -> Isometry<Real> {
+        if r.bool() { Isometry::identity() } else { Isometry::from_parts(na::Translation3::from(d3::gen_v(r, true, 8.0)), uq(qexact(r))) }
+    }
+    pub fn gen_touch(r: &mut Rng, thorough: bool) -> Vec<(String, String)> {
+        let mut v = Vec::new();
+        let n = if thorough { 500 } else { 60 };
+        for _ in 0..n {
+            let c = gen_touch_composite(r);
+            let world = exact_world(r);
+            let hc = format!("{} {}", hco(&c), d3::hiso(&world));
+            let boxes = part_boxes(&c);
+            for _ in 0..2 {
+                let x = gen_touch_other(r);
+                let gap = *r.pick(&[0.0, 0.0, 0.25, 0.5]);
+                let pb = boxes[r.below(boxes.len() as u64) as usize];
+                let k = r.below(3) as usize; let plus = r.bool();
+                let rel = touch_pose(r, &pb, &x, gap, k, plus);
+                let hx_ = format!("{} {}", c03::hsh(&x), d3::hiso(&(world * rel)));
+                for first in [true, false] {
+                    let base = format!("{} {} {}", hc, hx_, b(first));
+                    v.push(("composite_distance".into(), base.clone()));
+                    v.push(("composite_it".into(), base.clone()));
+                    v.push(("composite_cp".into(), format!("{} {}", base, hx(gap))));
+                    v.push(("composite_contact".into(), format!("{} {}", base, hx(gap))));
+                    // casts: start `back` behind the touching pose and approach along the axis, or slide along the part
+                    let mut e = Vector::zeros(); e[k] = if plus { 1.0 } else { -1.0 };
+                    let back = *r.pick(&[0.0, 1.0, 2.0]);
+                    let start = Isometry::from_parts(na::Translation3::from(rel.translation.vector + e * back), rel.rotation);
+                    let mut vel = if r.below(3) == 0 { let mut s = Vector::zeros(); s[(k + 1) % 3] = 1.0; s } else { -e * *r.pick(&[0.5, 1.0, 2.0]) };
+                    if !first { vel = -(start.inverse_transform_vector(&vel)); }
+                    let hs_ = format!("{} {} {} {}", hc, c03::hsh(&x), d3::hiso(&(world * start)), b(first));
+                    // `composite_cast` takes the velocity in the frame of shape 1: the composite's frame (first) or x's frame
+                    v.push(("composite_cast".into(), format!("{} {} {} {} {}", hs_, d3::hv(&vel), hx(*r.pick(&[1.0, 2.0, 1.0e3])), hx(if r.bool() { gap } else { 0.0 }), b(r.bool()))));
+                }
+            }
+            for _ in 0..3 {
+                let pb = boxes[r.below(boxes.len() as u64) as usize];
+                let k = r.below(3) as usize; let plus = r.bool();
+                let ctr = na::center(&pb.mins, &pb.maxs);
+                // points on faces / edges / corners of a part's box
+                let mut pt = ctr; for j in 0..3 { pt[j] = *r.pick(&[pb.mins[j], ctr[j], pb.maxs[j]]); }
+                v.push(("composite_point".into(), format!("{} {} {}", hc, d3::hp(&(world * pt)), b(r.bool()))));
+                // query boxes that touch the part's box exactly on one side of one axis
+                let he = Vector::new(*r.pick(&[0.25, 0.5, 1.0, 4.0]), *r.pick(&[0.25, 0.5, 1.0, 4.0]), *r.pick(&[0.25, 0.5, 1.0, 4.0]));
+                let mut cq = ctr; for j in 0..3 { if j != k { cq[j] += *r.pick(&[-0.5, 0.0, 0.25]); } }
+                cq[k] = if plus { pb.maxs[k] + he[k] } else { pb.mins[k] - he[k] };
+                v.push(("composite_aabb".into(), format!("{} {} {}", hc, d3::hp(&(cq - he)), d3::hp(&(cq + he)))));
+                // rays grazing a face of the box, and rays that reach the box exactly at max_toi
+                let j = (k + 1 + r.below(2) as usize) % 3;
+                let mut org = ctr; org[k] = if plus { pb.maxs[k] } else { pb.mins[k] }; org[j] = pb.mins[j] - 2.0;
+                let mut dir = Vector::zeros(); dir[j] = *r.pick(&[0.5, 1.0, 2.0]);
+                if r.bool() { org = ctr; org[k] = if plus { pb.maxs[k] + 2.0 } else { pb.mins[k] - 2.0 }; dir = Vector::zeros(); dir[k] = if plus { -1.0 } else { 1.0 }; }
+                v.push(("composite_ray".into(), format!("{} {} {} {} {}", hc, d3::hp(&(world * org)), d3::hv(&(world * dir)), hx(*r.pick(&[2.0, 4.0, 1.0e3])), b(r.bool()))));
+            }
+        }
+        v
+    }
+
+    // ---------------------------------------------------------------- nonlinear casts
+    pub fn gen_nlcast(r: &mut Rng, thorough: bool) -> Vec<(String, String)> {
+        let mut v = Vec::new();
+        let n = if thorough { 400 } else { 50 };
+        for it in 0..n {
+            let lat = it % 2 == 0;
+            let c = match it % 5 { 0 | 1 => gen_compound(r, lat), 2 => gen_grid_mesh(r, lat), 3 => gen_compound_x(r, true, true), _ => gen_polyline(r, lat) };
+            let world = if r.below(3) == 0 { Isometry::identity() } else { d3::gen_iso(r, lat, 20.0) };
+            let hc = format!("{} {}", hco(&c), d3::hiso(&world));
+            let boxes = part_boxes(&c);
+            for _ in 0..2 {
+                // the other shape: mostly shapes whose bounding sphere is NOT centred at their local origin
+                let x = match r.below(6) { 0 => Sh::Ball(*r.pick(&[0.25, 0.5])), 1 => Sh::Cuboid(d3::gen_he(r, true) * 0.5),
+                                           2 => Sh::Capsule(Point::new(1.0, 0.5, 0.0), Point::new(2.0, 0.5, 0.5), 0.25),
+                                           3 => { let o = d3::gen_v(r, true, 2.0); Sh::Triangle(Point::from(o), Point::from(o + Vector::new(0.5, 0.0, 0.0)), Point::from(o + Vector::new(0.0, 0.5, 0.25))) }
+                                           4 => { let o = d3::gen_v(r, true, 2.0); Sh::Segment(Point::from(o), Point::from(o + Vector::new(0.25, 0.5, 0.0))) }
+                                           _ => c03::gen_shape(r, lat, &[3, 4, 5]) };
+                let gx = c03::dynsh(&x);
+                // start pose: rotated (2 of 3), placed so that a point of x (its local box centre) sits at `dist` from a part
+                let q = if r.below(3) == 0 { [0.0, 0.0, 0.0, 1.0] } else { d3::gen_quat(r, lat) };
+                let rot = uq(q);
+                let pb = boxes[r.below(boxes.len() as u64) as usize];
+                let ctr = na::center(&pb.mins, &pb.maxs);
+                let xb = gx.compute_local_aabb(); let xc = na::center(&xb.mins, &xb.maxs);
+                let mut dirv = d3::gen_v(r, lat, 1.0); if dirv.norm() < 1e-3 { dirv = Vector::new(0.0, 1.0, 0.0); }
+                let dirv = dirv.normalize();
+                let dist = *r.pick(&[2.0, 3.0, 5.0]);
+                let t = ctr.coords + dirv * dist - rot * xc.coords;
+                let rel = Isometry::from_parts(na::Translation3::from(t), rot);
+                let px = world * rel;
+                let t1: f64 = *r.pick(&[1.0, 2.0, 10.0]);
+                // x moves towards the part (world frame) and spins; the composite stands still, translates or spins slowly
+                let linx = world * (-dirv * (dist / *r.pick(&[0.5, 1.0, 1.5])) / t1.min(2.0)) + d3::gen_v(r, lat, 0.1);
+                let angx = if r.bool() { Vector::zeros() } else { d3::gen_v(r, lat, 1.0) * 0.25 };
+                let lcx = if r.bool() { Point::origin() } else { xc };
+                let (linc, angc, lcc) = match r.below(3) { 0 => (Vector::zeros(), Vector::zeros(), Point::origin()),
+                    1 => (d3::gen_v(r, lat, 0.5), Vector::zeros(), Point::origin()),
+                    _ => (d3::gen_v(r, lat, 0.25), d3::gen_v(r, lat, 1.0) * 0.0625, ctr) };
+                for first in [true, false] {
+                    v.push(("composite_nlcast".into(), format!("{} {} {} {} {} {} {} {} {} {} {} {} {}", hc, c03::hsh(&x), d3::hiso(&px), b(first),
+                        d3::hp(&lcc), d3::hv(&linc), d3::hv(&angc), d3::hp(&lcx), d3::hv(&linx), d3::hv(&angx), hx(0.0), hx(t1), b(r.bool()))));
+                }
+            }
+        }
+        v
+    }
+
     pub fn gen(r: &mut Rng, thorough: bool) -> Vec<(String, String)> {
         let mut v = Vec::new();
         let n = if thorough { 1200 } else { 150 };
@@ -429,7 +612,8 @@ pub mod comp {
 pub mod comp2 {
     use crate::util::*;
     use crate::p2::na::{self, DVector};
-    use crate::p2::query::{self, ClosestPoints, DefaultQueryDispatcher, PointQuery, QueryDispatcher, Ray, RayCast, ShapeCastOptions};
+    use crate::p2::bounding_volume::{Aabb, BoundingVolume};
+    use crate::p2::query::{self, ClosestPoints, DefaultQueryDispatcher, NonlinearRigidMotion, PointQuery, QueryDispatcher, Ray, RayCast, ShapeCastOptions};
     use crate::p2::shape::{Ball, Capsule, Compound, Cuboid, HeightField, Polyline, Segment, Shape, SharedShape, Triangle};
     use crate::p2::utils::IsometryOpt;
     use d2::{Isometry, Point, Real, Vector};
@@ -503,11 +687,40 @@ pub mod comp2 {
     fn fcps(k: (u8, f64)) -> String { match k.0 { 0 => "I".into(), 1 => format!("v {}", ff(k.1)), _ => "D".into() } }
 
     pub fn exec(func: &str, a: &mut Args) -> String {
+        let exact = super::comp::lattice_args(a);
+        let out = exec0(func, a);
+        if exact { format!("{} ; exact", out) } else { out }
+    }
+    fn exec0(func: &str, a: &mut Args) -> String {
         let c = co(a); let pc = d2::iso(a);
         let gc = dynco(&c);
         let ps = parts(&c, &*gc);
         let d = DefaultQueryDispatcher;
         match func {
+            "composite2_nlcast" => {
+                let x = sh(a); let px = d2::iso(a); let first = a.b();
+                let gx = dynsh(&x);
+                let mc = NonlinearRigidMotion::new(pc, d2::p(a), d2::v(a), a.f());
+                let mx = NonlinearRigidMotion::new(px, d2::p(a), d2::v(a), a.f());
+                let t0 = a.f(); let t1 = a.f(); let stop = a.b();
+                let got = if first { query::cast_shapes_nonlinear(&mc, &*gc, &mx, &*gx, t0, t1, stop) } else { query::cast_shapes_nonlinear(&mx, &*gx, &mc, &*gc, t0, t1, stop) };
+                let got = match got { Ok(v) => v, Err(_) => return "unsupported ; unsupported".into() };
+                let bf = minf(ps.iter().filter_map(|(pp, s)| {
+                    let mp = match pp { Some(pp) => mc.prepend(*pp), None => mc };
+                    d.cast_shapes_nonlinear(&mp, &**s, &mx, &*gx, t0, t1, stop).ok().flatten().map(|h| h.time_of_impact) }));
+                format!("{} ; {} ; lim {}", fo(got.map(|h| h.time_of_impact)), fo(bf), ff(t1))
+            }
+            "composite2_aabb" => {
+                // `Qbvh::intersect_aabb` against the closed scalar test on the parts' own boxes
+                let bx = Aabb::new(d2::p(a), d2::p(a));
+                let comp = match gc.as_composite_shape() { Some(c) => c, None => return "unsupported ; unsupported".into() };
+                let mut got: Vec<u32> = Vec::new();
+                comp.qbvh().intersect_aabb(&bx, &mut got);
+                got.sort();
+                let mut bf: Vec<u32> = ps.iter().enumerate().filter(|(_, (pp, s))| match pp { Some(pp) => s.compute_aabb(pp), None => s.compute_local_aabb() }.intersects(&bx)).map(|(i, _)| i as u32).collect();
+                bf.sort();
+                format!("ids {} ; ids {}", got.iter().map(|x| x.to_string()).collect::<Vec<_>>().join(","), bf.iter().map(|x| x.to_string()).collect::<Vec<_>>().join(","))
+            }
             "composite2_distance" | "composite2_it" | "composite2_cp" | "composite2_contact" | "composite2_cast" => {
                 let x = sh(a); let px = d2::iso(a); let first = a.b();
                 let gx = dynsh(&x);
@@ -572,7 +785,9 @@ pub mod comp2 {
                 let got_n = gc.cast_ray_and_get_normal(&pc, &ray, max_toi, solid).map(|i| i.time_of_impact);
                 let ls = ray.inverse_transform_by(&pc);
                 let bf = minf(ps.iter().filter_map(|(pp, s)| match pp { Some(pp) => s.cast_ray(pp, &ls, max_toi, solid), None => s.cast_local_ray(&ls, max_toi, solid) }));
-                format!("{} {} ; {} {} ; lim {}", fo(got), fo(got_n), fo(bf), fo(bf), ff(max_toi))
+                // like with like: the normal-returning composite visitor calls the parts' `cast_ray_and_get_normal`
+                let bf_n = minf(ps.iter().filter_map(|(pp, s)| match pp { Some(pp) => s.cast_ray_and_get_normal(pp, &ls, max_toi, solid), None => s.cast_local_ray_and_get_normal(&ls, max_toi, solid) }.map(|i| i.time_of_impact)));
+                format!("{} {} ; {} {} ; lim {}", fo(got), fo(got_n), fo(bf), fo(bf_n), ff(max_toi))
             }
             "composite2_point" => {
                 let pt = d2::p(a); let solid = a.b();
@@ -600,14 +815,16 @@ pub mod comp2 {
             _ => Sh2::Segment(Point::new(-0.5, 0.0), Point::new(0.5, 0.25)),
         }
     }
-    fn gen_compound(r: &mut Rng, lat: bool) -> Co2 {
+    fn rexact(r: &mut Rng) -> na::UnitComplex<Real> { let (re, im) = *r.pick(&[(1.0, 0.0), (0.0, 1.0), (-1.0, 0.0), (0.0, -1.0)]); na::Unit::new_unchecked(na::Complex::new(re, im)) }
+    fn gen_compound(r: &mut Rng, lat: bool) -> Co2 { gen_compound_x(r, lat, false) }
+    fn gen_compound_x(r: &mut Rng, lat: bool, exact: bool) -> Co2 {
         let n = 5 + r.below(36) as usize;
-        let kind = r.below(6); let layout = r.below(3); let pitch = *r.pick(&[1.5, 2.0, 3.0]);
+        let kind = r.below(6); let layout = r.below(3); let pitch = if exact { *r.pick(&[1.0, 1.5, 2.0]) } else { *r.pick(&[1.5, 2.0, 3.0]) };
         let mut ps = Vec::new();
         for k in 0..n {
             let t = match layout { 0 => Vector::new(pitch * k as f64, 0.0), 1 => Vector::new(pitch * (k % 5) as f64, pitch * (k / 5) as f64), _ => d2::gen_v(r, lat, 10.0) };
             let ql = lat || r.bool();
-            let m = Isometry::from_parts(na::Translation2::from(t), rot(r, ql));
+            let m = Isometry::from_parts(na::Translation2::from(t), if exact { rexact(r) } else { rot(r, ql) });
             let kk = if kind == 5 { r.below(5) } else { kind };
             ps.push((gen_part(r, lat, kk), m));
             if r.below(12) == 0 { let last = ps.last().unwrap().clone(); ps.push(last); }
@@ -653,6 +870,131 @@ pub mod comp2 {
         let far = if r.below(10) == 0 { d2::gen_v(r, lat, 30.0) } else { Vector::zeros() };
         let rt = if r.below(3) == 0 { na::UnitComplex::identity() } else { rot(r, lat) };
         Isometry::from_parts(na::Translation2::from(anchor + off + far), rt)
+    }
+
+    // ---------------------------------------------------------------- exact touching configurations (lattice)
+    fn part_boxes(c: &Co2) -> Vec<Aabb> {
+        let g = dynco(c);
+        parts(c, &*g).iter().map(|(pp, s)| match pp { Some(pp) => s.compute_aabb(pp), None => s.compute_local_aabb() }).collect()
+    }
+    fn gen_touch_other(r: &mut Rng) -> Sh2 {
+        match r.below(6) {
+            0 => Sh2::Ball(*r.pick(&[0.25, 0.5, 1.0])),
+            1 => Sh2::Cuboid(Vector::new(*r.pick(&[0.5, 1.0, 3.0]), *r.pick(&[0.25, 0.5, 2.0]))),
+            2 => { let mut p = Point::origin(); p[r.below(2) as usize] = *r.pick(&[0.5, 2.0]); Sh2::Capsule(Point::from(-p.coords), p, *r.pick(&[0.25, 0.5])) }
+            3 => loop { let (p, q, s) = (d2::gen_p(r, true, 2.0), d2::gen_p(r, true, 2.0), d2::gen_p(r, true, 2.0));
+                        if (q - p).perp(&(s - p)).abs() > 1e-3 { break Sh2::Triangle(p, q, s); } },
+            4 => loop { let (p, q) = (d2::gen_p(r, true, 2.0), d2::gen_p(r, true, 2.0)); if (q - p).norm() > 1e-3 { break Sh2::Segment(p, q); } },
+            _ => Sh2::Capsule(Point::new(0.5, 0.25), Point::new(1.5, 1.0), 0.25),
+        }
+    }
+    fn touch_pose(r: &mut Rng, pb: &Aabb, x: &Sh2, gap: f64, k: usize, plus: bool) -> Isometry<Real> {
+        let rot = rexact(r);
+        let xb = dynsh(x).compute_aabb(&Isometry::from_parts(na::Translation2::identity(), rot));
+        let mut t = Vector::zeros();
+        for j in 0..2 {
+            t[j] = if j == k { if plus { pb.maxs[j] + gap - xb.mins[j] } else { pb.mins[j] - gap - xb.maxs[j] } }
+                   else { (pb.mins[j] + pb.maxs[j]) * 0.5 - (xb.mins[j] + xb.maxs[j]) * 0.5 + *r.pick(&[-0.5, 0.0, 0.0, 0.25]) };
+        }
+        Isometry::from_parts(na::Translation2::from(t), rot)
+    }
+    pub fn gen_touch(r: &mut Rng, thorough: bool) -> Vec<(String, String)> {
+        let mut v = Vec::new();
+        let n = if thorough { 500 } else { 60 };
+        for _ in 0..n {
+            let c = if r.below(3) == 0 { gen_polyline(r, true) } else { gen_compound_x(r, true, true) };
+            let world = if r.bool() { Isometry::identity() } else { Isometry::from_parts(na::Translation2::from(d2::gen_v(r, true, 8.0)), rexact(r)) };
+            let hc = format!("{} {}", hco(&c), d2::hiso(&world));
+            let boxes = part_boxes(&c);
+            for _ in 0..2 {
+                let x = gen_touch_other(r);
+                let gap = *r.pick(&[0.0, 0.0, 0.25, 0.5]);
+                let pb = boxes[r.below(boxes.len() as u64) as usize];
+                let k = r.below(2) as usize; let plus = r.bool();
+                let rel = touch_pose(r, &pb, &x, gap, k, plus);
+                let hx_ = format!("{} {}", hsh(&x), d2::hiso(&(world * rel)));
+                for first in [true, false] {
+                    let base = format!("{} {} {}", hc, hx_, b(first));
+                    v.push(("composite2_distance".into(), base.clone()));
+                    v.push(("composite2_it".into(), base.clone()));
+                    v.push(("composite2_cp".into(), format!("{} {}", base, hx(gap))));
+                    v.push(("composite2_contact".into(), format!("{} {}", base, hx(gap))));
+                    let mut e = Vector::zeros(); e[k] = if plus { 1.0 } else { -1.0 };
+                    let back = *r.pick(&[0.0, 1.0, 2.0]);
+                    let start = Isometry::from_parts(na::Translation2::from(rel.translation.vector + e * back), rel.rotation);
+                    let mut vel = if r.below(3) == 0 { let mut s = Vector::zeros(); s[(k + 1) % 2] = 1.0; s } else { -e * *r.pick(&[0.5, 1.0, 2.0]) };
+                    if !first { vel = -(start.inverse_transform_vector(&vel)); }
+                    let hs_ = format!("{} {} {} {}", hc, hsh(&x), d2::hiso(&(world * start)), b(first));
+                    v.push(("composite2_cast".into(), format!("{} {} {} {} {}", hs_, d2::hv(&vel), hx(*r.pick(&[1.0, 2.0, 1.0e3])), hx(if r.bool() { gap } else { 0.0 }), b(r.bool()))));
+                }
+            }
+            for _ in 0..3 {
+                let pb = boxes[r.below(boxes.len() as u64) as usize];
+                let k = r.below(2) as usize; let plus = r.bool();
+                let ctr = na::center(&pb.mins, &pb.maxs);
+                let mut pt = ctr; for j in 0..2 { pt[j] = *r.pick(&[pb.mins[j], ctr[j], pb.maxs[j]]); }
+                v.push(("composite2_point".into(), format!("{} {} {}", hc, d2::hp(&(world * pt)), b(r.bool()))));
+                let he = Vector::new(*r.pick(&[0.25, 0.5, 1.0, 4.0]), *r.pick(&[0.25, 0.5, 1.0, 4.0]));
+                let mut cq = ctr; for j in 0..2 { if j != k { cq[j] += *r.pick(&[-0.5, 0.0, 0.25]); } }
+                cq[k] = if plus { pb.maxs[k] + he[k] } else { pb.mins[k] - he[k] };
+                v.push(("composite2_aabb".into(), format!("{} {} {}", hc, d2::hp(&(cq - he)), d2::hp(&(cq + he)))));
+                let j = (k + 1) % 2;
+                let mut org = ctr; org[k] = if plus { pb.maxs[k] } else { pb.mins[k] }; org[j] = pb.mins[j] - 2.0;
+                let mut dir = Vector::zeros(); dir[j] = *r.pick(&[0.5, 1.0, 2.0]);
+                if r.bool() { org = ctr; org[k] = if plus { pb.maxs[k] + 2.0 } else { pb.mins[k] - 2.0 }; dir = Vector::zeros(); dir[k] = if plus { -1.0 } else { 1.0 }; }
+                v.push(("composite2_ray".into(), format!("{} {} {} {} {}", hc, d2::hp(&(world * org)), d2::hv(&(world * dir)), hx(*r.pick(&[2.0, 4.0, 1.0e3])), b(r.bool()))));
+            }
+            // random (non-touching) query boxes as well: the 2-D enumeration had no family at all
+            let bx = dynco(&c).compute_local_aabb();
+            for _ in 0..2 {
+                let cq = Point::new(r.uniform(bx.mins.x, bx.maxs.x), r.uniform(bx.mins.y, bx.maxs.y));
+                let he = d2::gen_he(r, false) * 0.25;
+                v.push(("composite2_aabb".into(), format!("{} {} {}", hc, d2::hp(&(cq - he)), d2::hp(&(cq + he)))));
+            }
+        }
+        v
+    }
+
+    // ---------------------------------------------------------------- nonlinear casts
+    pub fn gen_nlcast(r: &mut Rng, thorough: bool) -> Vec<(String, String)> {
+        let mut v = Vec::new();
+        let n = if thorough { 400 } else { 50 };
+        for it in 0..n {
+            let lat = it % 2 == 0;
+            let c = match it % 3 { 0 => gen_compound(r, lat), 1 => gen_compound_x(r, true, true), _ => gen_polyline(r, lat) };
+            let world = if r.below(3) == 0 { Isometry::identity() } else { d2::gen_iso(r, lat, 20.0) };
+            let hc = format!("{} {}", hco(&c), d2::hiso(&world));
+            let boxes = part_boxes(&c);
+            for _ in 0..2 {
+                let x = match r.below(5) { 0 => Sh2::Ball(*r.pick(&[0.25, 0.5])), 1 => Sh2::Cuboid(d2::gen_he(r, true) * 0.5),
+                                           2 => Sh2::Capsule(Point::new(1.0, 0.5), Point::new(2.0, 1.0), 0.25),
+                                           3 => { let o = d2::gen_v(r, true, 2.0); Sh2::Triangle(Point::from(o), Point::from(o + Vector::new(0.5, 0.0)), Point::from(o + Vector::new(0.0, 0.5))) }
+                                           _ => { let o = d2::gen_v(r, true, 2.0); Sh2::Segment(Point::from(o), Point::from(o + Vector::new(0.25, 0.5))) } };
+                let gx = dynsh(&x);
+                let rt = if r.below(3) == 0 { na::UnitComplex::identity() } else { rot(r, lat) };
+                let pb = boxes[r.below(boxes.len() as u64) as usize];
+                let ctr = na::center(&pb.mins, &pb.maxs);
+                let xb = gx.compute_local_aabb(); let xc = na::center(&xb.mins, &xb.maxs);
+                let mut dirv = d2::gen_v(r, lat, 1.0); if dirv.norm() < 1e-3 { dirv = Vector::new(0.0, 1.0); }
+                let dirv = dirv.normalize();
+                let dist = *r.pick(&[2.0, 3.0, 5.0]);
+                let t = ctr.coords + dirv * dist - rt * xc.coords;
+                let rel = Isometry::from_parts(na::Translation2::from(t), rt);
+                let px = world * rel;
+                let t1: f64 = *r.pick(&[1.0, 2.0, 10.0]);
+                let linx = world * (-dirv * (dist / *r.pick(&[0.5, 1.0, 1.5])) / t1.min(2.0)) + d2::gen_v(r, lat, 0.1);
+                let angx = if r.bool() { 0.0 } else { r.coord(lat, 1.0) * 0.25 };
+                let lcx = if r.bool() { Point::origin() } else { xc };
+                let (linc, angc, lcc) = match r.below(3) { 0 => (Vector::zeros(), 0.0, Point::origin()),
+                    1 => (d2::gen_v(r, lat, 0.5), 0.0, Point::origin()),
+                    _ => (d2::gen_v(r, lat, 0.25), r.coord(lat, 1.0) * 0.0625, ctr) };
+                for first in [true, false] {
+                    v.push(("composite2_nlcast".into(), format!("{} {} {} {} {} {} {} {} {} {} {} {} {}", hc, hsh(&x), d2::hiso(&px), b(first),
+                        d2::hp(&lcc), d2::hv(&linc), hx(angc), d2::hp(&lcx), d2::hv(&linx), hx(angx), hx(0.0), hx(t1), b(r.bool()))));
+                }
+            }
+        }
+        v
     }
 
     pub fn gen(r: &mut Rng, thorough: bool) -> Vec<(String, String)> {
